@@ -3,6 +3,10 @@
 ALL = ['C%02d' % i for i in range(1, 21)]
 
 CHECKS = [
+ {"property_id": "C05", "category": "other", "design_ref": "DESIGN.md §4 C05",
+  "technique": "static analysis: linear-use typestate over every CFG path of every instantiated continuation, call-graph reachability, type-driven drain enumeration",
+  "text": "Necessary structural conditions decided on every instantiated path: (1) each entry point of the 19 operation classes consumes the operation exactly once on every path (no drop, no double completion), (2) no synchronous call path from a public initiation reaches an inline invocation of a stored handler, (3) every member under client_service whose type can park a completion handler is drained from cancel() or only waits in a wait_for_one group with a drained sibling, (4) queued type-erased handlers are invoked only after leaving their container, (5) run_op/terminal-disconnect/mqtt_client cancel+dup structure. Not decided: that the io_context runs out of work; Asio internals.",
+  "note": "Assumes Boost.Asio's documented contracts (initiations complete once and never inline, post/defer asynchronous, wait_for_one cancels the loser); the operation-class table and idiom tables in rules/c05.py."},
  {"property_id": "C20", "category": "proof", "design_ref": "DESIGN.md §4 C20",
   "technique": "static analysis: constant-evaluated table extraction vs spec table + dominance/def-use rules on the instantiated lookup",
   "text": "Finite space decided completely and statically: for each of the 9 categories the accepted set of to_reason_code<cat> is exactly the extracted table (in-range search, end check dominates every dereference, equality dominates the accepting return, the element itself is returned), every table is compared row by row with the MQTT 5 tables (admitted ⊆ listed, server-sendable ⊆ admitted, strictly ascending), and each of the call sites uses the category of the packet it handles.",
